@@ -67,8 +67,9 @@ func execOpen(c c04.Case) c04.Obs {
 	return c04.Obs{Class: "ok"}
 }
 
-func execTree(c c04.Case) c04.Obs {
-	blob := c04.TinyBlob(c04.TocEntries(c.Ops))
+func execTree(c c04.Case) c04.Obs { return execTreeBlob(c04.TinyBlob(c04.TocEntries(c.Ops))) }
+
+func execTreeBlob(blob []byte) c04.Obs {
 	sr := io.NewSectionReader(bytes.NewReader(blob), 0, int64(len(blob)))
 	mr, err := db.NewReader(getDB(), sr)
 	if err != nil {
@@ -91,6 +92,7 @@ func execTree(c c04.Case) c04.Obs {
 			if ra, err := gr.OpenFile(id); err == nil {
 				ra.ReadAt(make([]byte, 16), 0)
 				ra.ReadAt(make([]byte, 16), 3)
+				c04.TryPassthrough(ra)
 			}
 		}
 	}
@@ -121,7 +123,7 @@ func toDB(c c04.Case) c04.Case {
 
 func main() {
 	c04.Main(c04.Config{
-		Exec: map[string]func(c04.Case) c04.Obs{"dbopen": execOpen, "dbtree": execTree, "dbchunk": func(c c04.Case) c04.Obs {
+		Exec: map[string]func(c04.Case) c04.Obs{"dbopen": execOpen, "dbtree": execTree, "dbjson": func(c c04.Case) c04.Obs { return execTreeBlob(c04.RawBlob([]byte(c.Raw))) }, "dbchunk": func(c c04.Case) c04.Obs {
 			return c04.ChunkObs(c04.ChunkFns{Lookup: db.VerifChunkEntryForOffsetC04, Select: db.VerifFileReaderSelectC04}, c)
 		}},
 		Corpus: func() []c04.Case {
@@ -140,11 +142,15 @@ func main() {
 				cs = append(cs, toDB(c))
 			}
 			cs = append(cs, c04.ChunkCorpus("dbchunk")...)
+			cs = append(cs, c04.JSONCorpus("dbjson")...)
 			return cs
 		},
 		Gen: func(r *hx.Rng, i int) c04.Case {
 			if r.Chance(1, 4) {
 				return c04.GenChunk(r, "dbchunk")
+			}
+			if r.Chance(1, 4) {
+				return c04.GenJSON(r, "dbjson")
 			}
 			if r.Chance(1, 3) {
 				return toDB(c04.GenOpen(r))
@@ -166,6 +172,9 @@ func main() {
 				t = c04.CoqOpenAs("CDbOpen", c, o)
 			case "dbchunk":
 				t = c04.CoqChunkAs("CDbChunk", c, o)
+			case "dbjson":
+				// the db store reads the TOC with its own token-level parser: not modelled, outcome class only
+				t = "CDbOracle " + c04.CoqObs(c04.Obs{Class: o.Class})
 			default:
 				t = fmt.Sprintf("(* unexpected kind %s *)", c.Kind)
 			}
